@@ -31,7 +31,7 @@ func c20() []*Ob {
 					}
 					var doc *ssa.Parameter
 					for _, p := range fn.Params {
-						if p.Name() == "doc" {
+						if ParamName(p) == "doc" {
 							doc = p
 						}
 					}
@@ -186,7 +186,7 @@ func c20() []*Ob {
 				}
 				var doc *ssa.Parameter
 				for _, p := range fn.Params {
-					if p.Name() == "doc" {
+					if ParamName(p) == "doc" {
 						doc = p
 					}
 				}
